@@ -42,7 +42,7 @@ func init() {
 		Workers:    8,
 		Assumptions: []string{
 			"number texts: strconv.ParseFloat is trusted; the model keeps the exact decimal value and the harness compares with the nearest float64",
-			"texts never contain '_' digit separators, 'inf'/'nan', hex floats, U+001F or non-ASCII characters; cookie values avoid ';', '\"', '\\' and outer spaces (net/http cookie syntax)",
+			"number texts with '_' digit separators, 'inf'/'nan' or hex floats are reported unsupported by the driver; texts never contain U+001F or non-ASCII characters; cookie values avoid ';', '\"', '\\' and outer spaces (net/http cookie syntax)",
 			"deepObject keys have at most two bracket segments and canonical decimal array indexes (other shapes are reported unsupported by the driver and only run for crashes)",
 			"schemas carry no default, pattern, format other than int32, nullable or nested compositions",
 		},
@@ -980,7 +980,7 @@ func genC05(ctx *hx.Ctx, emit func(hx.Case)) {
 		}
 	}
 	// ---- F. free / malformed carrier texts
-	toks := []string{"1", "-2", "12", "a", "id", "p", "b", "true", "false", "x", "0x1F", "010", "+5", "00", "0b11", "0o17", "08", "1.5", "1e2", "-", "", "dave", "5", "0"}
+	toks := []string{"1", "-2", "12", "a", "id", "p", "b", "true", "false", "x", "0x1F", "010", "+5", "00", "0b11", "0o17", "08", "1.5", "1e2", "-", "", "dave", "5", "0", "1_0", "-0", "+0x1"}
 	seps := []string{",", ",", ".", ";", "=", "|", " ", ";p=", ";id=", "", "&"}
 	allLeaves := append(append([]map[string]any{}, leaves...), c05PS("int32"), map[string]any{"k": "arr", "items": c05PS("number")},
 		map[string]any{"k": "arr", "items": c05PS("boolean")}, objSchemas[2], objSchemas[3], map[string]any{"k": "arr", "items": c05PS("int32")})
